@@ -473,7 +473,10 @@ def run(ctx):
     from joserfc.jwk import OctKey, RSAKey, ECKey, OKPKey, KeySet, JWKRegistry
     import joserfc.rfc7638 as M
     from cryptography.hazmat.primitives.asymmetric import rsa
+    import time as _time
+    _t0 = _time.time()
     ok, log = ctx.prove()
+    _t1 = _time.time()
     rng = ctx.rng
 
     cases, meta = [], []
@@ -482,7 +485,7 @@ def run(ctx):
         cases.append(term)
         meta.append(m)
 
-    dist = {"json": 0, "thumb_direct": 0, "thumb_direct_err": 0, "keys": 0, "key_variants": 0, "ec_short": 0,
+    dist = {"json": 0, "sha256": 0, "thumb_direct": 0, "thumb_direct_err": 0, "keys": 0, "key_variants": 0, "ec_short": 0,
             "kid_flows": 0, "keysets": 0, "generated": 0, "digest_variants": 0, "spec": 0, "fixtures": 0}
     per_repr = {}
 
@@ -500,6 +503,15 @@ def run(ctx):
             ctx.note_case(("json", repr(v)))
             dist["json"] += 1
             add("CJson %s %s" % (c_pv(v), c_res(r, c_str)), ("json", repr(v)[:80]))
+
+        # ---- A2. the SHA-256 of model/C13Sha256.v (used by the Examples of props/C13.v) vs hashlib
+        sha_msgs = [bytes(rng.randrange(256) for _ in range(n)) for n in list(range(0, 131)) + [191, 192, 193, 500]]
+        sha_msgs += [ref_canonical(RFC7638_EXAMPLE), ref_canonical(RFC8037_A3)]
+        sha_msgs += [bytes(rng.randrange(256) for _ in range(rng.randrange(0, 300))) for _ in range(ctx.scale(40, 2000))]
+        for m in sha_msgs:
+            ctx.note_case(("sha256", m))
+            dist["sha256"] += 1
+            add("CSha %s %s" % (c_hex(m), c_hex(hashlib.sha256(m).digest())), ("sha256-model", m.hex()[:40]))
 
         # ---- B. rfc7638.thumbprint directly (valid and malformed dictionaries / field lists / digests)
         for d, fields, dg in gen_thumb_calls(ctx):
@@ -855,9 +867,16 @@ def run(ctx):
                           {"fn": "key", "jwk": j, "variant": {"repr": "literal"}, "want": want})
 
     # ---- correspondence: model (vm_compute) vs recorded implementation behaviour
-    ev = lib.CoqEval(["From Model Require Import Base PyVal B64 IntCodec TableTypes C13Json C13Thumb C13Cases."],
-                     "c13case", "c13_check", "c13_show", shard=150, max_chars=250000)
-    res = ev.run(cases)
+    ev = lib.CoqEval(["From Model Require Import Base PyVal B64 IntCodec TableTypes C13Json C13Thumb C13Sha256 C13Cases."],
+                     "c13case", "c13_check", "c13_show", shard=150, max_chars=150000)
+    _t2 = _time.time()
+    res = ev.run(cases, jobs=12)
+    if any((not err.strip()) or "TIMEOUT" in err for _, err in res["errors"]):
+        # a coqc killed from outside (memory pressure on a loaded machine): evaluate once more, fewer processes
+        ctx.notes.append("case evaluation repeated after %d killed coqc runs" % len(res["errors"]))
+        res = ev.run(cases, jobs=4)
+    ctx.notes.append("wall: prove %.1fs, implementation runs %.1fs, case evaluation %.1fs (%d cases, %d chars)" % (
+        _t1 - _t0, _t2 - _t1, _time.time() - _t2, len(cases), sum(len(c) for c in cases)))
     ctx.coverage["traces_validated_against_impl"] = res["evaluated"]
     ctx.coverage["disagreements_checked"] = len(res["failing"])
     direct = len(ctx.violations)
